@@ -71,6 +71,25 @@ fn main() {
         }
         return;
     }
+    if prop == "_RT" {
+        // debug: parse / print / reparse each argument, `ohmc _RT 'Jan open, easter closed'`
+        for a in &args[2..] {
+            match util::catch(|| opening_hours_syntax::parse(a)) {
+                Ok(Ok(e)) => {
+                    let d = e.to_string();
+                    let back = util::catch(|| opening_hours_syntax::parse(&d));
+                    let same = matches!(&back, Ok(Ok(b)) if *b == e);
+                    let n = util::catch(|| e.clone().normalize().to_string());
+                    println!("`{a}` -> `{d}` reparse_same={same} normalized={n:?}");
+                    if !same {
+                        println!("   ast   = {e:?}\n   back  = {back:?}");
+                    }
+                }
+                other => println!("`{a}` -> {other:?}"),
+            }
+        }
+        return;
+    }
     if prop == "_FILTER" {
         // keep the stdin lines the real parser accepts (used once to build data/corpus.txt)
         use std::io::BufRead;
